@@ -106,6 +106,11 @@ def run(tier):
             u = corpus.rand_input(rng)
             ops.append(st.gen_fwd_op(rng, t, inp=u, mode=rng.choice([0, 0, 1, 4, 4 | 64, 128]), cap=32 * len(u) + 256,
                                      argmask=rng.choice([31, 28, 0, 12])))
+            if rng.random() < 0.15:
+                # lou_free() between calls is legal: the next call must succeed as before (stale scratch sizes would
+                # make it return 0 without a message)
+                ops.append("FREE")
+                ops.append(ops[-2])
         cases.append(common.Case("c04-full%d" % ti, ["LOGDUMP 1", "HOOK trace 1"], ops, {"table": t}))
     # display tables lacking mappings: return 0 with an error
     for di, dis in enumerate(corpus.display_tables()[: (4 if tier == "quick" else 40)]):
@@ -115,6 +120,11 @@ def run(tier):
             base = st.gen_fwd_op(rng, "en-us-g2.ctb", inp=u, mode=0, cap=3 * len(u) + 8, argmask=256 | 28)
             ops.append(base + " " + corpus.tpath(dis))
         cases.append(common.Case("c04-dis%d" % di, ["LOGDUMP 1", "HOOK trace 1"], ops, {"table": "en-us-g2.ctb+" + dis}))
+    wide = st.wide_cases(rng, 200 if tier == "quick" else 2500, per_table=6, back=True, exact=False, tag="c04w", budget=3000000,
+                         modes_f=[0, 0, 4, 4, 1, 4 | 64, 128, 4 | 128, 64])
+    for c in wide:
+        c.setup.insert(0, "LOGDUMP 1")
+    cases += wide
     calls = st.run_and_trace(exe, cases)
     dist = {"fwd": 0, "back": 0, "ret0": 0, "truncated": 0, "generous": 0, "contract_fail": 0, "noR": 0}
     trace_bad = []
